@@ -107,19 +107,41 @@ theorem processFile_noPanic (fs : Fs) (budget : Option Nat) (src : Bytes) :
     | ok ls =>
       rw [hr] at hl
       simp only
-      cases hfeed : feed ls.cfg eofTok with
-      | parseError => exact NoPanic_failure _ _ _ _
-      | panic => exact absurd hfeed (C09.parser_no_panic hl.reach _)
-      | ok cfg =>
-        simp only
-        have hrs := runStmts_ok fs { ls with cfg := cfg }
-          ⟨.feed hl.reach hfeed, feed_wf _ _ hl.reach.inv hl.wf eofTok_ok hfeed, hl.st⟩
-        cases hr2 : runStmts ⟨Gen.lib, fs⟩ { ls with cfg := cfg } with
-        | error r => rw [hr2] at hrs; exact hrs
-        | ok ls2 =>
+      -- after the end-of-input flush of the lexer: `EOF`, the last statements, the final flush
+      have rest : ∀ cfg0 : Cfg, C09.Reachable cfg0 → CfgWF cfg0 →
+          NoPanic (match feed cfg0 eofTok with
+            | .parseError => finish ls.st (.failure "Parse" "" ls.lexLoc)
+            | .panic => finish ls.st (.panic "parser")
+            | .ok cfg =>
+              match runStmts ⟨Gen.lib, fs⟩ { ls with cfg := cfg } with
+              | .error r => r
+              | .ok ls =>
+                if ls.st.wr.flushBuf.2 = true then finish { ls.st with wr := ls.st.wr.flushBuf.1 } .success
+                else finish { ls.st with wr := ls.st.wr.flushBuf.1 } (.failure "Io" "" Loc.nil)) := by
+        intro cfg0 hreach hwf
+        cases hfeed : feed cfg0 eofTok with
+        | parseError => exact NoPanic_failure _ _ _ _
+        | panic => exact absurd hfeed (C09.parser_no_panic hreach _)
+        | ok cfg =>
           simp only
-          split
-          · exact NoPanic_success _
-          · exact NoPanic_failure _ _ _ _
+          have hrs := runStmts_ok fs { ls with cfg := cfg }
+            ⟨.feed hreach hfeed, feed_wf _ _ hreach.inv hwf eofTok_ok hfeed, hl.st⟩
+          cases hr2 : runStmts ⟨Gen.lib, fs⟩ { ls with cfg := cfg } with
+          | error r => rw [hr2] at hrs; exact hrs
+          | ok ls2 =>
+            simp only
+            split
+            · exact NoPanic_success _
+            · exact NoPanic_failure _ _ _ _
+      -- the literal still pending in the lexer (if any) is a string token: `TokOk`
+      cases hfi : Lex.finish ls.pending ls.lexLoc with
+      | none => exact rest ls.cfg hl.reach hl.wf
+      | some t =>
+        simp only
+        cases hft : feed ls.cfg t with
+        | parseError => exact NoPanic_failure _ _ _ _
+        | panic => exact absurd hft (C09.parser_no_panic hl.reach _)
+        | ok c =>
+          exact rest c (.feed hl.reach hft) (feed_wf _ _ hl.reach.inv hl.wf (Lex.finish_tok_ok hfi) hft)
 
 end Resynth.C08
